@@ -11,7 +11,7 @@ only = set(sys.argv[2:])
 by = {}
 for sid in sorted(os.listdir(os.path.join(V, "seeded"))):
     d = os.path.join(V, "seeded", sid)
-    if not os.path.isdir(d) or sid.startswith("B-") or not sid.startswith(os.environ.get("SEED_PREFIX", "")):
+    if not os.path.isdir(d) or sid.startswith(("B-", "B4-")) or not sid.startswith(os.environ.get("SEED_PREFIX", "")):
         continue
     meta = json.load(open(os.path.join(d, "meta.json")))
     for pid in meta.get("checks") or [meta["property"]]:
